@@ -174,6 +174,17 @@ func scenarios(prop, tier string) []*Scenario {
 		for _, s := range r {
 			s.oracles = []oracle{oracleC19}
 		}
+	case "C03":
+		r = append(r,
+			&Scenario{Name: "synthetic-splits/depth-144", Cfg: hdr.Config{MaxBranchDepth: 144, Splits: "synth"}, N: pick(6, 7), M: 1,
+				Maint: []hdr.Op{opClean, opReload}, Probes: true},
+			&Scenario{Name: "synthetic-splits/depth-2", Cfg: hdr.Config{MaxBranchDepth: 2, Splits: "synth"}, N: pick(6, 7), M: 1,
+				Maint: []hdr.Op{opClean}, Probes: true},
+		)
+		for _, s := range r {
+			s.oracles = []oracle{oracleC03repo, oracleC08verdict, oracleC01}
+			s.ForeignProbes = true
+		}
 	case "C12":
 		r = append(r,
 			&Scenario{Name: "genesis/crash-in-clean-save", Cfg: hdr.Config{MaxBranchDepth: 144}, N: pick(5, 6), M: pick(2, 3),
